@@ -51,6 +51,9 @@ def tasks(tier, seed):
             T.append(('sweeper', M, 'implicit', True))  # G_inv installed with set_G_inv after construction
     for (M, L, alpha) in (((2, 2, 1e-2), (2, 3, 1e-4), (1, 3, 0.5), (3, 2, 1e-2), (2, 5, 1e-10), (1, 6, 1e-9)) if quick else ((2, 2, 1e-2), (2, 3, 1e-4), (1, 3, 0.9), (3, 2, 1e-2), (2, 4, 1e-3), (3, 3, 1e-6), (1, 5, 0.5), (2, 5, 1e-10), (1, 7, 1e-9), (1, 8, 1e-10), (2, 4, 1e-12))):
         T.append(('iteration', M, L, alpha))
+    # an existing controller switched to another alpha (params.alpha + set_G_inv on every step) after it has been used
+    for (M, L, alpha, first) in (((2, 3, 1e-1, 1e-4), (1, 4, 1e-3, 0.5)) if quick else ((2, 3, 1e-1, 1e-4), (1, 4, 1e-3, 0.5), (2, 4, 1e-6, 1e-2), (3, 2, 0.5, 1e-8))):
+        T.append(('iteration', M, L, alpha, first))
     return T
 
 
@@ -242,15 +245,27 @@ def one_iteration(ctl, u0, U):
     return [[ctl.MS[l].levels[0].u[m][0] for m in range(1, M + 1)] for l in range(L)]
 
 
-def iteration_case(rep, M, L, alpha):
-    name = f'iteration/M{M}/L{L}/alpha{alpha:g}'
+def reconfigure(ctl, alpha):
+    """switch an existing controller to another alpha the way the code provides for it: the parameter and the per-step solver factors"""
+    L = len(ctl.MS)
+    ctl.params.alpha = alpha
+    for l, S in enumerate(ctl.MS):
+        S.levels[0].sweep.set_G_inv(ph.get_G_inv_matrix(l, L, alpha, ctl.description['sweeper_params']))
+
+
+def iteration_case(rep, M, L, alpha, first=None):
+    """first: the controller is built (and used for one iteration) with this alpha, then reconfigured to alpha; the judged iteration is the next one"""
+    name = f'iteration/M{M}/L{L}/alpha{alpha:g}' + (f'/after-alpha{first:g}' if first is not None else '')
     lam, dt = -1.5, 0.2
     u0v = z3.Real('u0')
     Uv = [[z3.Real(f'U_{l}_{m}') for m in range(M)] for l in range(L)]
     c = Ctx()
     Ctx.cur = c
     try:
-        ctl = build_ctl(M, L, alpha, lam, dt)
+        ctl = build_ctl(M, L, alpha if first is None else first, lam, dt)
+        if first is not None:
+            one_iteration(ctl, SymReal(u0v), [[SymReal(v) for v in row] for row in Uv])
+            reconfigure(ctl, alpha)
         out = one_iteration(ctl, SymReal(u0v), [[SymReal(v) for v in row] for row in Uv])
         Q = np.array(ctl.MS[0].levels[0].sweep.coll.Qmat)
     finally:
@@ -280,9 +295,9 @@ def iteration_case(rep, M, L, alpha):
     if res == 'sat':
         rep.replayed += 1
         env = {str(v): float(model_value(m_, v)) for v in allv}
-        dev = float_iteration(M, L, alpha, lam, dt, env)
+        dev = float_iteration(M, L, alpha, lam, dt, env, first)
         if dev > 1e-10 + 1e-13 * condJ:
-            rep.violation(f'{PID}/iteration', f'{name}: real it_ParaDiag deviates from the preconditioned all-at-once iteration by {dev:.3e}', {'task': ['iteration', M, L, alpha], 'env': env, 'deviation': dev})
+            rep.violation(f'{PID}/iteration' + ('/reconfigured-alpha' if first is not None else ''), f'{name}: real it_ParaDiag deviates from the preconditioned all-at-once iteration by {dev:.3e}', {'task': ['iteration', M, L, alpha, first], 'env': env, 'deviation': dev})
         else:
             rep.unreproduced(name, {'env': env, 'dev': dev})
     # fixed point: the sequential collocation solution (defined in the query) is left unchanged
@@ -311,9 +326,12 @@ def iteration_case(rep, M, L, alpha):
     rep.sample({'case': name, 'free': f'u0 and {M * L} node values in [-1,1]', 'lambda*dt': lam * dt}, limit=6)
 
 
-def float_iteration(M, L, alpha, lam, dt, env):
-    ctl = build_ctl(M, L, alpha, lam, dt, float_mode=True)
+def float_iteration(M, L, alpha, lam, dt, env, first=None):
+    ctl = build_ctl(M, L, alpha if first is None else first, lam, dt, float_mode=True)
     U = [[env[f'U_{l}_{m}'] for m in range(M)] for l in range(L)]
+    if first is not None:
+        one_iteration(ctl, env['u0'], U)
+        reconfigure(ctl, alpha)
     out = one_iteration(ctl, env['u0'], U)
     got = np.array([[complex(x) for x in row] for row in out])
     Q = ctl.MS[0].levels[0].sweep.coll.Qmat[1:, 1:]
@@ -334,7 +352,7 @@ def replay(path):
     d = json.load(open(path))['replay']
     t = d['task']
     if t[0] == 'iteration':
-        dev = float_iteration(t[1], t[2], t[3], -1.5, 0.2, d['env'])
+        dev = float_iteration(t[1], t[2], t[3], -1.5, 0.2, d['env'], t[4] if len(t) > 4 else None)
         print('deviation', dev)
         bad = dev > 1e-7
     else:
